@@ -294,6 +294,13 @@ def run(ctx):
     ctx.sample({k: (v if not isinstance(v, list) or len(v) < 40 else v[:40] + ['...']) for k, v in fev[len(fev) // 2].items()})
     rej = ctx.judge('Trace_C08', ev, chunk=250)
     ctx.traces += len(ev) - len(rej)
+    bad = {i for i, _ in rej}
+    good = [e for i, e in enumerate(ev) if i not in bad and len(e.get('emitted', e.get('f', []))) < 2000]
+    ctx.selftest(lambda b: ctx.judge('Trace_C08', b), good,
+                 [('one trailing octet swallowed', lambda e: dict(e, remaining=e['remaining'][1:]) if e['k'] == 'own' and not e['raised'] and e['remaining'] else None),
+                  ('re-emission differs', lambda e: dict(e, reemitted=e['reemitted'][:-1] + [e['reemitted'][-1] ^ 1]) if e['k'] == 'own' and not e['raised'] and e['reemitted'] else None),
+                  ('second pass differs', lambda e: dict(e, o2=e['o2'][:-1] + [e['o2'][-1] ^ 1]) if e['k'] == 'foreign' and e['accepted'] and e['o2'] else None),
+                  ('a field value changed by normalisation', lambda e: dict(e, o1=e['o1'][:-1] + [e['o1'][-1] ^ 1], o2=e['o1'][:-1] + [e['o1'][-1] ^ 1]) if e['k'] == 'foreign' and e['accepted'] and e['o1'] and 'literal' in e['label'] else None)], 'C08')
     ctx.extra['own_packets'] = len(oev)
     ctx.extra['foreign_packets'] = len(fev)
     ctx.extra['foreign_accepted'] = sum(1 for e in fev if e['accepted'])
